@@ -498,6 +498,38 @@ def check(run):
                               key=key_of("C12-P2", "subset-tree"))
             else:
                 run.instance("P2", where_, f"candidate tree `{txt[:50]}` - NOT decided", True, nontrivial=False)
+    # ------------------------------------------------------------------ S4 the plane side signs a point only when its projection is inside the triangle
+    run.rule("S4", "signed_distance: the points whose sign is taken from the side of the closest triangle's plane are exactly those whose projection lies inside that triangle "
+                   "(the barycentric range test); the mask is not widened by another condition - next to a sharp vertex the reported closest triangle may face away from the "
+                   "point, so every other point is signed by the containment (ray) test")
+    sd = ix.func("trimesh.proximity:signed_distance")
+    masks = set()
+    for st in ast.walk(sd.node):
+        if isinstance(st, ast.AugAssign) and isinstance(st.op, ast.Mult) and isinstance(st.target, ast.Subscript) and "sign" in ast.unparse(st.value):
+            # distance[nonzero[M]] *= -1.0 * sign
+            for nm in ast.walk(st.target.slice):
+                if isinstance(nm, ast.Name):
+                    masks.add(nm.id)
+    cand = []
+    for m_ in sorted(masks):
+        binds = [st for st in ast.walk(sd.node) if (isinstance(st, ast.Assign) and any(isinstance(t, ast.Name) and t.id == m_ for t in st.targets))
+                 or (isinstance(st, ast.AugAssign) and isinstance(st.target, ast.Name) and st.target.id == m_)]
+        if any("barycentric" in ast.unparse(b.value) for b in binds if isinstance(b, ast.Assign)):
+            cand.append((m_, binds))
+    if not cand:
+        run.instance("S4", sd.where, "signed_distance: the mask of points signed by the plane side is not in a recognised form - NOT decided", True, nontrivial=False)
+        run.assume("signed_distance: sign-by-plane mask not recognised")
+    for m_, binds in cand:
+        extra = [b for b in binds if not (isinstance(b, ast.Assign) and "barycentric" in ast.unparse(b.value))]
+        widen = [b for b in extra if (isinstance(b, ast.AugAssign) and isinstance(b.op, ast.BitOr)) or
+                 (isinstance(b, ast.Assign) and (any(isinstance(x_, ast.BinOp) and isinstance(x_.op, ast.BitOr) for x_ in ast.walk(b.value)) or "logical_or" in ast.unparse(b.value)))]
+        ok = not widen
+        run.instance("S4", sd.where, f"`{m_}` := barycentric range test; later definitions that widen it: {[ast.unparse(b)[:50] for b in widen] or 'none'}", ok)
+        for b in widen:
+            run.violation("S4", f"{sd.module.rel}:{b.lineno} {sd.qualname}", f"signed_distance widens the set of points signed by the plane of their closest triangle with `{ast.unparse(b)[:80]}`: "
+                          f"a point whose projection falls outside that triangle (closest point on an edge or vertex) can lie behind the plane of the triangle closest_point "
+                          f"happened to report although it is outside the mesh (sharp convex vertex: three faces more than 90 degrees apart) - it gets the wrong sign",
+                          key=key_of("C12-S4", "widened-mask"))
     return {
         "explanation": "Algebraic abstract interpretation (rational identities) of planes_lines, points_to_barycentric and the seven regions of triangles.closest_point; "
         "canonical-form structural checks of ray_triangle_id (hit test, mask sequence, forward filter, first hit, tree) and of the two pruning boxes "
